@@ -34,7 +34,8 @@ def _is_server_ctor(ctx, ev) -> bool:
         return any(b.startswith("socketserver.") for b in ctx.prog.external_bases(t.cls))
     # the class is picked at run time (a local, a table lookup, a helper's result): a call that is handed the
     # request-handler class is the server being constructed, which binds the listening socket
-    if t.kind in ("unknown", "repo") and isinstance(ev.node, ast.Call) and ev.frame and ev.frame[0] is not None:
+    if (t.kind in ("unknown", "repo") or (t.kind == "ext" and str(getattr(t, "ext", "") or "").startswith("?."))) \
+            and isinstance(ev.node, ast.Call) and ev.frame and ev.frame[0] is not None:
         for a in list(ev.node.args) + [k.value for k in ev.node.keywords]:
             d = dotted(a)
             if not d:
@@ -88,6 +89,14 @@ def _droppers(ctx, eff: Effects):
     for f in init_mod.functions.values():
         if any(s.effect == "PRIV" for s in eff.direct(f)):
             out.append(f)
+    if not out:
+        # the privileged calls live in helpers (possibly of another module): the dropper is the start-up step of this
+        # module that reaches them - not initialize() itself, which sequences the steps
+        for f in init_mod.functions.values():
+            if f.name != "initialize" and "PRIV" in eff.summary(f):
+                out.append(f)
+        inner = {g for f in out for c_, t_ in eff.calls_of(f, None) if t_.kind == "repo" for g in t_.funcs if g in out and g is not f}
+        out = [f for f in out if f not in inner] or out
     return out
 
 
@@ -142,7 +151,9 @@ def check(ctx, rep):
 
     # ------------------------------------------------------------------ R19b
     for dropper in droppers:
-        w = Walker(prog, ctx.resolver, expr_value=_expr_value)
+        w = Walker(prog, ctx.resolver, expr_value=_expr_value,
+                   inline=lambda fn, t, d: d < 3 and fn.module.name.startswith("pygopherd.") and fn.cls is None and fn is not dropper
+                   and bool({"PRIV"} & eff.summary(fn) or any((dotted(n.func) or "") in LOOKUPS for n in ast.walk(fn.node) if isinstance(n, ast.Call))))
         paths = w.run(dropper)
         rep.extra["exhaustive"] = True
         rep.extra.setdefault("paths_enumerated", {})[dropper.qualname] = len(paths)
@@ -274,7 +285,9 @@ def check(ctx, rep):
         rep.fail("R19a", "bin/pygopherd", detail="start-up script not found")
     else:
         mf = module_func(binmod)
-        wb = Walker(prog, ctx.resolver, inline=lambda fn, t, d: d < 3 and fn.module is binmod)  # a main() in the script is part of it
+        # a main() in the script - or in a module of the package the script only calls - is part of it
+        wb = Walker(prog, ctx.resolver, inline=lambda fn, t, d: d < 3 and fn is not initialize and fn.cls is None
+                    and (fn.module is binmod or (fn.module.name.startswith("pygopherd.") and fn.name in ("main", "run", "cli"))))
         bpaths = wb.run_body(binmod.tree.body, mf)
         problems = set()
         found_init = False
